@@ -669,15 +669,16 @@ func runLogSys(cfg Cfg) {
 		"thorough runs the systems under GOMAXPROCS 1, 4, 16 and the default in turn; VERIF_RACE=1 builds the harness with -race")
 }
 
+// lsLineSink embeds its mutex, as many writers do: it IS a sync.Locker, and it locks itself inside Write.
 type lsLineSink struct {
-	mu    sync.Mutex
+	sync.Mutex
 	lines map[string]int
 }
 
 func (k *lsLineSink) Write(p []byte) (int, error) {
-	k.mu.Lock()
+	k.Lock()
 	k.lines[string(p)]++
-	k.mu.Unlock()
+	k.Unlock()
 	return len(p), nil
 }
 
@@ -705,11 +706,21 @@ func lsTimeHammer(s *Stream, cfg Cfg) {
 		}
 		// alone
 		alone := &lsLineSink{lines: map[string]int{}}
-		ha := mk(alone)
-		hb := ha.WithAttrs([]slog.Attr{slog.String("d", "x")})
-		for par := 0; par < 2; par++ {
-			ha.Handle(context.Background(), rec(par))
-			hb.Handle(context.Background(), rec(par))
+		adone := make(chan struct{})
+		go func() {
+			defer close(adone)
+			ha := mk(alone)
+			hb := ha.WithAttrs([]slog.Attr{slog.String("d", "x")})
+			for par := 0; par < 2; par++ {
+				ha.Handle(context.Background(), rec(par))
+				hb.Handle(context.Background(), rec(par))
+			}
+		}()
+		select {
+		case <-adone:
+		case <-time.After(20 * time.Second):
+			s.Violate("deadlock", fmt.Sprintf("%s handler: four records logged by one goroutine into a destination that locks its own (embedded) mutex in Write have not been written after 20 s", kind), map[string]any{"kind": kind})
+			return
 		}
 		// together
 		sink := &lsLineSink{lines: map[string]int{}}
@@ -730,7 +741,14 @@ func lsTimeHammer(s *Stream, cfg Cfg) {
 				}
 			}(g)
 		}
-		wg.Wait()
+		hdone := make(chan struct{})
+		go func() { wg.Wait(); close(hdone) }()
+		select {
+		case <-hdone:
+		case <-time.After(30 * time.Second):
+			s.Violate("deadlock", fmt.Sprintf("%s handler, 16 goroutines logging into a destination that locks its own (embedded) mutex in Write: not finished after 30 s", kind), map[string]any{"kind": kind})
+			return
+		}
 		for line, cnt := range sink.lines {
 			if alone.lines[line] == 0 {
 				s.Violate("not-the-line-logged-alone", fmt.Sprintf("%s handler, 16 goroutines logging records of two neighbouring seconds: %d lines read %q, which is none of the lines these records give when logged alone", kind, cnt, line),
